@@ -202,11 +202,22 @@ def contact_plane(X1, X2, epsilon1, epsilon2, youngs_modulus1, youngs_modulus2):
     same : bool
         Are both tetrahedrons actually the same tetrahedron (maybe scaled)?
     """
-    plane_hnf = (epsilon1 * youngs_modulus1).dot(X1) - (epsilon2 * youngs_modulus2).dot(X2)
+    pressure_field1 = (epsilon1 * youngs_modulus1).dot(X1)
+    pressure_field2 = (epsilon2 * youngs_modulus2).dot(X2)
+    plane_hnf = pressure_field1 - pressure_field2
     norm = np.linalg.norm(plane_hnf[:3])
 
-    if norm == 0.0:
-        return plane_hnf, True
+    gradient_norm = max(np.linalg.norm(pressure_field1[:3]),
+                        np.linalg.norm(pressure_field2[:3]))
+    if norm <= 1e-12 * gradient_norm:
+        # The pressure gradients are equal up to rounding errors. Either the
+        # pressure fields are identical (same tetrahedron) or there is no
+        # plane of equal pressure. Normalizing would amplify rounding errors
+        # to an arbitrary plane.
+        plane_hnf[:3] = 0.0
+        same = abs(plane_hnf[3]) <= 1e-12 * max(
+            abs(pressure_field1[3]), abs(pressure_field2[3]))
+        return plane_hnf, same
 
     plane_hnf /= norm
     # NOTE in order to obtain proper Hesse normal form of the contact plane
